@@ -1,2 +1,56 @@
 import Gopki.Model.Db
-import Gopki.Model.Hash
+import Gopki.Generated.Facts
+import Gopki.Abs.Conv3
+import Gopki.Abs.Conv4
+import Gopki.Base.Forest2
+/-! # C11 — an entity is regenerated exactly when an enabled reason applies, issuers first
+
+`shouldRegen` is the decision table of the statement over observable facts; `C11_needsUpdate_iff`
+proves that the model of `needsUpdate` (its eight tests in code order, nil cases included) computes
+exactly that table, for all 32 strategies and all states.  Propagation to subscribers and the
+parent-before-child order are the file-level theorems `Conv.run_converges` (planned ↔ least fixed point
+`Needs` of "own reason or issuer planned") and `Forest.bfs_main`. -/
+namespace C11
+open Db
+
+/-- the statement's decision table -/
+def shouldRegen (st : Strategy) (certMissing keyMaterialMissing storedHashDiffers cfgNewerThanArtifact
+    expiredButRenewable issuerArtifactNewer : Bool) : Bool :=
+  st.all || (!st.none_ && issuerArtifactNewer) || (st.missing && (certMissing || keyMaterialMissing)) ||
+  (st.changed && storedHashDiffers) || (st.newerConfig && cfgNewerThanArtifact) || (st.expired && expiredButRenewable)
+
+/-- **C11 (local reasons)**: `needsUpdate` is the decision table, for every strategy and state -/
+theorem C11_needsUpdate_iff (s : State) (st : Strategy) (e : Entity) (cfg : V1.CertificateContent) (hash : Der.Bytes) (now : Int) :
+    needsUpdate s st e cfg hash now =
+      shouldRegen st e.art.cert.isNone (e.art.key.isNone && e.art.request.isNone)
+        (match e.meta_.lastConfigHash with | some h => decide (h ≠ hash) | none => false)
+        (decide (e.meta_.lastConfigUpdate > e.meta_.lastBuild))
+        ((match e.art.cert with | some c => decide (c.notAfter < now) | none => false) && decide (cfg.validity.until_ > now))
+        (match s.find cfg.issuer with | some i => decide (i.meta_.lastBuild > e.meta_.lastBuild) | none => false) := by
+  unfold needsUpdate shouldRegen
+  cases hall : st.all
+  · simp only [Bool.false_eq_true, if_false, Bool.false_or]
+    cases s.find cfg.issuer <;> cases st.none_ <;> cases st.missing <;> cases st.changed <;> cases st.newerConfig <;> cases st.expired <;>
+      simp <;> (try (cases e.art.cert <;> simp)) <;> (try (cases e.meta_.lastConfigHash <;> simp)) <;> (try ac_rfl)
+  · simp
+
+/-- with every flag off nothing is ever regenerated -/
+theorem C11_no_flags_no_regen (s : State) (e : Entity) (cfg : V1.CertificateContent) (hash : Der.Bytes) (now : Int) :
+    needsUpdate s (Strategy.ofBits 0) e cfg hash now = false := by
+  unfold needsUpdate
+  simp [Strategy.ofBits, Strategy.none_]
+  cases s.find cfg.issuer <;> simp
+
+/-- the flags of `gopki sign`, regenerated from cli/root.go's AST: names, shorthands, defaults (-m and -c
+    on) and the strategy bit each sets; the bits are distinct powers of two -/
+theorem C11_flags_table :
+    Facts.signFlags = [⟨"generate-all", "a", false, 16⟩, ⟨"generate-changed", "c", true, 8⟩, ⟨"generate-expired", "e", false, 2⟩,
+                       ⟨"generate-missing", "m", true, 1⟩, ⟨"generate-outdated", "o", false, 4⟩] ∧
+    Facts.updateBits = [("UpdateNone", 0), ("UpdateMissing", 1), ("UpdateExpired", 2), ("UpdateNewerConfig", 4), ("UpdateChanged", 8), ("UpdateAll", 16)] := by
+  decide
+
+/-- the model reads a strategy number bit by bit exactly as the constants are laid out -/
+theorem C11_strategy_bits : ∀ n ∈ List.range 32,
+    Strategy.ofBits n = ⟨n &&& 1 ≠ 0, n &&& 2 ≠ 0, n &&& 4 ≠ 0, n &&& 8 ≠ 0, n &&& 16 ≠ 0⟩ := by decide
+
+end C11
